@@ -252,6 +252,13 @@ def ascii_predicate(prog, fid, depth=0):
     fn = prog.fns.get(fid)
     if fn is None or depth > 2:
         return False
+    # decided on values when the predicate can be evaluated (comparisons, or the byte classes of core): it accepts ASCII bytes only
+    try:
+        from . import seqmodel
+        acc = {c for c in range(256) if seqmodel.eval_pure(fn, ([0] * (fn.arg_count - 1)) + [c])}
+        return bool(acc) and max(acc) < 128
+    except Exception:
+        pass
     ok_cmp = False
     for bb, t in fn.calls():
         if fn.blocks[bb]["cleanup"]:
